@@ -137,6 +137,32 @@ fn scenario(kind: &str, mode: &str, args: &[&str], core: Core) -> (Result<String
                 fin!(r, core)
             }
         }
+        "rewrite" => {
+            // open from the (possibly failing / fragmenting) stream, then write the archive to a healthy in-memory output
+            if asy {
+                let sh = AShared::new(core);
+                let r = catch_unwind(AssertUnwindSafe(|| {
+                    block_on(async {
+                        let pm = PMTiles::from_async_reader(sh.clone()).await?;
+                        let mut out = futures::io::Cursor::new(Vec::<u8>::new());
+                        pm.to_async_writer(&mut out).await?;
+                        Ok::<String, std::io::Error>(hex_bytes(&out.into_inner()))
+                    })
+                }));
+                let core = std::mem::take(&mut *sh.0.lock().unwrap());
+                fin!(r, core)
+            } else {
+                let sh = Shared::new(core);
+                let r = catch_unwind(AssertUnwindSafe(|| {
+                    let pm = PMTiles::from_reader(sh.clone())?;
+                    let mut out = std::io::Cursor::new(Vec::<u8>::new());
+                    pm.to_writer(&mut out)?;
+                    Ok::<String, std::io::Error>(hex_bytes(&out.into_inner()))
+                }));
+                let core = std::mem::take(&mut *sh.0.borrow_mut());
+                fin!(r, core)
+            }
+        }
         "write" => match build_state(mode, args[0]) {
             Err(e) => (Err(format!("harness: {e}")), core),
             Ok(st) => {
@@ -148,7 +174,7 @@ fn scenario(kind: &str, mode: &str, args: &[&str], core: Core) -> (Result<String
     }
 }
 fn is_reader(kind: &str) -> bool {
-    matches!(kind, "hdr_r" | "dir_r" | "rdirs" | "open")
+    matches!(kind, "hdr_r" | "dir_r" | "rdirs" | "open" | "rewrite")
 }
 
 // ---------------------------------------------------------------------------------------------
